@@ -442,27 +442,8 @@ def _integrality(chk):
 
 
 def _literals(chk):
-    mod = chk.repo.module('parser')
-    func = mod.func('_parse_unary_expression', 'C12.lit')
-    n = 0
-    for node in walk_no_nested(func):
-        if isinstance(node, ast.Dict):
-            for k, v in zip(node.keys, node.values):
-                if const_str(k) == 'number':
-                    n += 1
-                    src = v
-                    if isinstance(v, ast.Name):
-                        # resolve single local assignment
-                        defs = [a.value for a in walk_no_nested(func) if isinstance(a, ast.Assign) and any(is_name(t, v.id) for t in a.targets)]
-                        src = defs[0] if len(defs) == 1 else v
-                    if isinstance(src, ast.Call) and call_name(src) == 'float':
-                        chk.ok('C12.lit', f'parser._parse_unary_expression: number literal built by {norm(src)} (always float)')
-                    else:
-                        chk.bad('C12.lit', mod, '_parse_unary_expression', norm(node),
-                                'number literals are no longer always floats: the same source literal may be int or float depending on its text',
-                                node=node)
-    if n == 0:
-        raise Unrecognised('C12.lit', "no {'number': ...} node construction found in _parse_unary_expression", mod.rel)
+    from .c02 import check_number_literals
+    check_number_literals(chk, 'C12.lit')
 
 
 def run(chk):
